@@ -83,6 +83,11 @@ func (p *httpPlugin) Handle(ctx context.Context, op string, content any) (*Respo
 	if err := p.do(ctx, r, &res); err != nil {
 		return nil, nil, err
 	}
+	if res.Content == nil && !res.Reject && !res.Unchange {
+		// `"content": null` together with unchange=false: there is nothing to hand to the
+		// next plugin or to the server; refuse instead of letting the manager assert a nil interface
+		return nil, nil, fmt.Errorf("plugin response has no content")
+	}
 	return &res, res.Content, nil
 }
 
